@@ -435,6 +435,10 @@ class SimNet:
             rec["silent"] = True
         elif k == "ok":
             dl.append((d, ans))
+            dup = getattr(self, "dup_exceptions", None)
+            if dup and tr.kind == "udp" and len(ans) > 3 and ans[0:2] == b"\xaa\x55" and ans[3] & 0x80:
+                dl.append((d + dup, ans))   # a refusal (Modbus exception frame) that the network delivers twice
+                self.count("fault:dup_exception")
         elif k == "dropans":
             pass
         elif k == "garbage":
